@@ -90,12 +90,12 @@ def generate(ctx):
     quick = ctx.quick
     behs = witnesses()
     nw = len(behs)
-    runs = [("M_oneindex", dict()), ("M_cert", dict(Cert="TRUE"))]
+    runs = [("M_oneindex", dict())]
     if quick:
-        runs += [("M_twoindices", dict(MaxI=2, MaxMsgs=3)), ("M_badcred", dict(MaxI=2, MaxMsgs=2, Creds=BOTH)),
-                 ("M_cert_twoindices", dict(Cert="TRUE", MaxI=2, MaxMsgs=2, Known=FUTURE_CERT))]
+        # certificate rounds: exhaustively checked in the quick tier by GV2_oneblock (stage 2), which carries the invariants
+        runs += [("M_twoindices", dict(MaxI=2, MaxMsgs=3)), ("M_badcred", dict(MaxI=2, MaxMsgs=2, Creds=BOTH))]
     else:
-        runs += [("M_twoindices_badcred", dict(MaxI=2, MaxMsgs=3, Creds=BOTH)),
+        runs += [("M_cert", dict(Cert="TRUE")), ("M_twoindices_badcred", dict(MaxI=2, MaxMsgs=3, Creds=BOTH)),
                  ("M_cert_twoindices", dict(Cert="TRUE", MaxI=2, MaxMsgs=3, Known=FUTURE_CERT)),
                  ("M_table_b", dict(WSel="b", MaxMsgs=4)), ("M_cert_5msgs", dict(Cert="TRUE", MaxMsgs=5, Blocks='{"A"}'))]
     ok = True
@@ -126,7 +126,7 @@ def generate(ctx):
     # G: simulated behaviours over the fixture's weight table (2,3,4,5,6 ; T=20 ; quorum 13), three alphabets
     rnd = random.Random(ctx.seed)
     num = 500 if quick else 4000
-    cap = 85 if quick else 1000
+    cap = 70 if quick else 1000
     for name, kw, depth in (("G2_oneblock", dict(Blocks='{"A"}'), 12), ("G2_twoblocks", dict(), 15),
                             ("G2_twoindices", dict(MaxI=2, Creds=BOTH), 18)):
         g = ctx.tlc_must("VoteCount", cfg("G", WSel="a", MaxMsgs=depth, MaxOps=depth, **kw), name=name, timeout=1500,
